@@ -321,18 +321,19 @@ def run(ctx):
             uncond = not [e for e in back[0].events if e.kind == "guard" and e.b != "Some"]
             if len(ext) == 1 and uncond:
                 acc, val = ext[0].b[0], ext[0].b[1]
-                inner = val
-                if isinstance(inner, tuple) and inner[0] == "call" and mir.method_name(inner[1]) == "chars":
-                    inner = inner[2][0]
+                inner = mir.strip(val)
+                while isinstance(inner, tuple) and inner[0] == "call" and mir.method_name(inner[1]) in ("chars", "deref", "as_str", "as_ref", "borrow") and inner[1] != ESC:
+                    inner = mir.strip(inner[2][0])
                 elem_ok = (isinstance(inner, tuple) and inner[0] == "call" and inner[1] == ESC and isinstance(inner[2][0], tuple)
                            and inner[2][0][0] == "elem" and inner[2][0][1] == T("iter", T("call", "core::str::<impl str>::chars", (text,), inner[2][0][1][1][3] if isinstance(inner[2][0][1][1], tuple) and len(inner[2][0][1][1]) > 3 else 0), "fwd"))
                 # simpler: iterator is chars(text) forward
                 it = inner[2][0][1] if isinstance(inner, tuple) and inner[0] == "call" and inner[1] == ESC and isinstance(inner[2][0], tuple) and inner[2][0][0] == "elem" else None
                 it_ok = (isinstance(it, tuple) and it[0] == "iter" and it[2] == "fwd" and isinstance(it[1], tuple) and it[1][0] == "call"
                          and mir.method_name(it[1][1]) == "chars" and it[1][2] == (text,))
-                ret_ok = all(isinstance(p.outcome[1], tuple) and p.outcome[1][0] == "call" and mir.method_name(p.outcome[1][1]) in ("collect", "clone", "into")
-                             and mir.mentions(p.outcome[1], acc) and isinstance(p.outcome[1][2][0], tuple)
-                             and (p.outcome[1][2][0] == acc or (p.outcome[1][2][0][0] == "iter" and p.outcome[1][2][0][2] == "fwd"))
+                ret_ok = all(mir.strip(p.outcome[1]) == mir.strip(acc) or
+                             (isinstance(p.outcome[1], tuple) and p.outcome[1][0] == "call" and mir.method_name(p.outcome[1][1]) in ("collect", "clone", "into")
+                              and mir.mentions(p.outcome[1], acc) and isinstance(p.outcome[1][2][0], tuple)
+                              and (p.outcome[1][2][0] == acc or (p.outcome[1][2][0][0] == "iter" and p.outcome[1][2][0][2] == "fwd")))
                              for p in rets)
                 exh = all(any(e.kind == "guard" and e.b == "None" for e in p.events[:3]) for p in rets)
                 ok_loop = it_ok and ret_ok and exh
@@ -362,6 +363,44 @@ def run(ctx):
             sep_ok = a == T("const", T("str", " "))
         ok_ex = tmpl == "--exclude {}" and arg_ok and sep_ok and len(maps) == 1
         detail = "template %r, argument ok %s, separator ok %s" % (tmpl, arg_ok, sep_ok)
+    if not ok_ex and len(eb.loops()) == 1:
+        # the same text built by hand: for each pattern { if !res.is_empty() { res.push(' ') }; res += "--exclude "; res += escaped }
+        h = list(eb.loops())[0]
+        ps = Walker(eb).walk(h, start_is_header=True)
+        back = [p for p in ps if p.outcome == ("backedge", h)]
+        rets = [p for p in ps if p.outcome[0] == "return"]
+        pats = T("param", 1, eb.dbg.get(1, ""))
+        good = bool(back) and bool(rets)
+        seen = set()
+        acc = None
+        for p in back:
+            seq = []
+            for e in p.events:
+                if e.kind == "call" and mir.method_name(e.a) in ("push", "push_str") and "String" in e.a:
+                    acc = mir.strip(e.b[0])
+                    v = mir.strip(e.b[1])
+                    while isinstance(v, tuple) and v[0] == "call" and mir.method_name(v[1]) in ("deref", "as_str", "as_ref", "borrow") and v[1] != ARG:
+                        v = mir.strip(v[2][0])
+                    if isinstance(v, tuple) and v[0] == "const":
+                        c = v[1]
+                        seq.append(chr(c[1]) if c[0] in ("char", "int") and isinstance(c[1], int) else (c[1] if c[0] == "str" else "?"))
+                    elif isinstance(v, tuple) and v[0] == "call" and v[1] == ARG and isinstance(v[2][0], tuple) and v[2][0][0] == "elem" and mir.strip(v[2][0][1][1]) == pats:
+                        seq.append("<escaped>")
+                    else:
+                        seq.append("?")
+            emp = [e.b for e in p.events if e.kind == "guard" and isinstance(e.a, tuple) and e.a[0] == "empty" and acc is not None and mir.strip(e.a[1]) == acc]
+            other = [e for e in p.events if e.kind == "guard" and not (isinstance(e.a, tuple) and e.a[0] in ("empty", "variantof"))]
+            if other:
+                good = False
+            if emp == [True] and seq == ["--exclude ", "<escaped>"]:
+                seen.add("first")
+            elif emp == [False] and seq == [" ", "--exclude ", "<escaped>"]:
+                seen.add("later")
+            else:
+                good = False
+        good = good and seen == {"first", "later"} and all(mir.strip(p.outcome[1]) == acc for p in rets)
+        if good:
+            ok_ex, detail = True, "hand-built: [' ' unless first] '--exclude ' <escaped>"
     ck.ob("C17-R3", EXC, "emits---exclude-<escaped>-joined-by-single-spaces", ok_ex, detail=detail)
 
     sb = ctx.body(SVC)
